@@ -61,7 +61,7 @@ let lslot_of_string t = match t with
 let lslot_kind sl = match sl with LRefs -> 'A' | LSrcs -> 'R' | LGArr -> 'A' | LGFrm -> 'D' | LGTag -> 'T' | LGMtg -> 'M'
 
 (* ---- tokens ---- *)
-let dec_ref t = if t = "-" then -1 else oint_of_string t
+let dec_ref t = if t = "-" || t = "none" then -1 else oint_of_string t
 let sub_from s i = OStr.sub s i (OStr.length s - i)
 let dec_sarg w (t : ostring) : string =
   if OStr.length t >= 2 && t.[1] = ':' then begin
@@ -354,6 +354,7 @@ let do_mk w toks : ostring =
     let (p, pkc) = parent_of w ptok kc in
     let x = (match kc, extra with
         | ('B' | 'S' | 'G' | 'R'), _ -> XNone
+        | 'A', "from" :: mt :: n :: dt :: _ -> XArrayT (dtype_of_string mt, z_of_string n, (if dt = "-" then DNothing else dtype_of_string dt))
         | 'A', dt :: rank :: dims -> XArray (dtype_of_string dt, OLst.map z_of_string (ntake dims (oint_of_string rank)))
         | 'D', n :: rest ->
           let n = oint_of_string n in
@@ -377,6 +378,21 @@ let do_mk w toks : ostring =
      | Ok _ -> failwith "create returned no entity"
      | r -> show_err r)
   | _ -> failwith "bad mk line"
+
+let fspec w (fk : ostring) (a : ostring) (kc : char) : efilter =
+  (* what the implementation driver refuses: a filter the entity kind has no getter for *)
+  let named = kc <> 'X' and typed = kc <> 'X' && kc <> 'P' in
+  let has_meta = OStr.contains "BRADTMG" kc and has_src = OStr.contains "ADTMG" kc in
+  let oid_of r = (let k = dec_ref r in match slot_of w k with
+      | Some s when s.bound && slot_alive w s -> Some (nat_of_int s.oid) | _ -> None) in
+  match fk with
+  | "id" -> FId (dec_sarg w a)
+  | "name" -> if named then FName (dec_sarg w a) else raise (Refuse "driver::kind")
+  | "notname" -> if named then FNotName (dec_sarg w a) else raise (Refuse "driver::kind")
+  | "type" -> if typed then FType (dec_sarg w a) else raise (Refuse "driver::kind")
+  | "meta" -> if has_meta then FMeta (oid_of a) else raise (Refuse "driver::kind")
+  | "src" -> if has_src then FSrc (oid_of a) else raise (Refuse "driver::kind")
+  | _ -> failwith ("bad filter " ^ fk)
 
 let do_line w toks : ostring =
   let num t = oint_of_string t in
@@ -447,10 +463,18 @@ let do_line w toks : ostring =
     let oid = recv w (num o) "A" in
     let d = (match k with "set" -> DimSet | "range" -> DimRange | "sampled" -> DimSampled | "alias" -> DimAlias | _ -> failwith "bad dimension kind") in
     show w (run_op w (ODimAdd (nat_of_int oid, d, HNone)))
-  | ["dim"; o; "frame"; r] ->
+  | "dim" :: o :: "frame" :: r :: rest ->
     let oid = recv w (num o) "A" in
+    (* the overload with a column index: the front end compares it with the frame's columns FIRST (index > #columns:
+       OutOfBounds — of a none handle that dereferences nothing: UninitializedEntity either way) *)
     let a = arg w (dec_ref r) 'D' in
-    show w (run_op w (ODimAdd (nat_of_int oid, DimFrame None, a)))
+    let too_big = (match rest, a with
+        | [c], HEnt f -> (match find_ent (w.ss.s_db) f with
+            | Some e -> oint_of_string c > OLst.length e.e_pay.p_cols
+            | None -> false)
+        | _ -> false) in
+    if too_big then (match w.ss.s_mode with Some _ -> "ERR nix::OutOfBounds" | None -> "ERR nix::UninitializedEntity")
+    else show w (run_op w (ODimAdd (nat_of_int oid, DimFrame None, a)))
   | ["deldims"; o] -> let oid = recv w (num o) "A" in show w (run_op w (ODimClear (nat_of_int oid)))
   | ["frows"; o; n] -> let oid = recv w (num o) "D" in show w (run_op w (OSetExtent (nat_of_int oid, [z_of_string n])))
   (* writes of fields the model does not carry: well-formed by construction of the generators *)
@@ -468,6 +492,53 @@ let do_line w toks : ostring =
     show w (run_op w (OSetDataT (nat_of_int oid, dtype_of_string mt, [z_of_string n])))
   | "adata" :: o :: mt :: axis :: rank :: cnt -> let oid = recv w (num o) "A" in
     show w (run_op w (OAppendData (nat_of_int oid, dtype_of_string mt, OLst.map z_of_string (ntake cnt (num rank)), nat_of_int (num axis))))
+  | ["setlt"; o; lt] -> let oid = recv w (num o) "X" in show w (run_op w (OSetLtype (nat_of_int oid, cstr lt)))
+  | ["touchupd"; o; _] -> let oid = recv w (num o) "BSRADTMGPX" in
+    show w (run_op w (OTouch (nat_of_int oid, [KBlock; KSection; KSource; KArray; KFrame; KTag; KMTag; KGroup; KProperty; KFeature])))
+  | ["wrowbad"; o; row; how] ->
+    (* refused by the library: the row is past the end / the value cannot be converted / there are more values than columns;
+       a frame without rows refuses every row *)
+    let oid = recv w (num o) "D" in
+    (match find_ent (w.ss.s_db) (nat_of_int oid), w.ss.s_mode with
+     | Some e, Some _ ->
+       let rows = (match e.e_pay.p_extent with [n] -> int_of_z n | _ -> 0) in
+       if how = "row" && oint_of_string row < rows then show w (run_op w (OTouch (nat_of_int oid, [KFrame])))
+       else "ERR nix::hdf5::H5Error"
+     | _ -> "ERR nix::UninitializedEntity")
+  | ["lsf"; ptok; kt; fk; a] ->
+    let kc = kt.[0] in let (p, _) = parent_of w ptok kc in
+    let f = fspec w fk a kc in
+    let l = brack (OLst.map (ord_of w) (list_filtered ids (w.ss.s_db) p (kind_of_char kc) f)) in
+    "OK flt=" ^ l ^ " idx=" ^ l
+  | ["llsf"; h; sl; fk; a] ->
+    let sl = lslot_of_string sl in let hh = holder w (num h) sl in
+    let f = fspec w fk a (lslot_kind sl) in
+    let l = brack (OLst.map (ord_of w) (members_filtered ids (w.ss.s_db) hh sl f)) in
+    "OK flt=" ^ l ^ " idx=" ^ l
+  | ["dimsf"; o; want] ->
+    let oid = recv w (num o) "A" in
+    let kname d = (match d with DimSet -> "set" | DimRange -> "range" | DimSampled -> "sampled" | DimAlias -> "alias" | DimFrame _ -> "frame") in
+    let l = brack (OLst.map (fun (i, d) -> ostring_of_int (int_of_nat i) ^ ":" ^ kname d)
+                     (dims_filtered (w.ss.s_db) (nat_of_int oid) (fun d -> kname d = want))) in
+    "OK flt=" ^ l ^ " idx=" ^ l
+  | ["posq"; o] ->
+    let oid = recv w (num o) "M" in
+    "OK hp=" ^ bool01 (has_positions (w.ss.s_db) (nat_of_int oid)) ^ " np=" ^
+    (match position_count (w.ss.s_db) (nat_of_int oid) with Some n -> string_of_z n | None -> "!")
+  | "colq" :: o :: nn :: rest ->
+    let oid = recv w (num o) "D" in
+    let nn = num nn in
+    let names = OLst.map (fun t -> cstr (dec_str t)) (ntake rest nn) in
+    let rest' = drop rest nn in
+    let idx = (match rest' with ni :: r -> OLst.map (fun t -> nat_of_int (num t)) (ntake r (num ni)) | [] -> []) in
+    (match find_ent (w.ss.s_db) (nat_of_int oid) with
+     | Some e ->
+       let cols = e.e_pay.p_cols in
+       let ci = col_indices cols names and cn = col_names cols idx in
+       let a = if OLst.exists (fun x -> x = None) ci then "!" else brack (OLst.map (fun x -> match x with Some i -> ostring_of_int (int_of_nat i) | None -> "?") ci) in
+       let b = if OLst.exists (fun x -> x = None) cn then "!" else brack (OLst.map (fun x -> match x with Some s -> enc s | None -> "?") cn) in
+       "OK ci=" ^ a ^ " cn=" ^ b
+     | None -> "ERR model::frame")
   | ["flush"] -> show w (run_sop w SFlush)
   | c :: _ -> failwith ("bad command " ^ c)
   | [] -> failwith "empty line"
@@ -573,7 +644,7 @@ let answer w toks : ostring =
       (* another process: a fresh session on the same file, which it closes again *)
       ignore (run_sop w (SOpen (if kind = "other" then MRO else MRW)));
       ignore (run_sop w SClose) end;
-    ignore (run_sop w (SOpen (if kind = "ro" then MRO else MRW)));
+    ignore (run_sop w (SOpen (if kind = "ro" then MRO else MRW)));      (* "def": File::open(path), the default mode is ReadWrite *)
     for j = 0 to w.n - 1 do
       let s = w.tbl.(j) in
       (* the implementation driver finds its entities again by id: dead or re-identified ones become none handles *)
@@ -652,6 +723,7 @@ let run_hist (mode : ostring) =
     let spec = (match toks with
         | "reopen" :: _ -> if mode = "C02" then b else "ANY"
         | ("del" | "delh") :: _ when mode = "C04" -> if is_err b then "ANY" else b
+        | ("lsf" | "llsf" | "dimsf" | "posq" | "colq") :: _ -> if is_err b then "ANY" else strip_tail b
         | ("new" | "observe" | "uuid") :: _ -> "ANY"
         | ["chk"; ptok; kt] ->
           if mode = "C03" then (try "OK " ^ chk_spec rep ptok kt.[0] with Refuse what -> "ERR " ^ what | Failure _ -> "ANY") else "ANY"
